@@ -58,7 +58,7 @@ PROPS = {
     "C02": {
         "parts": [
             {"engine": "D", "crate": "d_net", "harnesses": [
-                {"name": "c02_crash", "id": "c02_crash_2keys_2ops", "covers": ["restarted", "torn_write", "durable_value", "durable_removed", "served_after_restart"],
+                {"name": "c02_crash", "id": "c02_crash_2keys_2ops", "covers": ["restarted", "torn_write", "durable_value", "durable_removed", "served_after_restart", "settled_removal"],
                  "quick": {"env": {"C02_KEYS": 2, "C02_OPS": 2}, "max_paths": 200000, "timeout": 900},
                  "thorough": {"env": {"C02_KEYS": 2, "C02_OPS": 3}, "max_paths": 3000000, "timeout": 3400}},
             ]},
@@ -110,6 +110,7 @@ PROPS = {
                 {"name": "c08_add_single", "covers": ["single_started", "single_not_started"], "quick": {"max_paths": 100000, "timeout": 600}},
                 {"name": "c08_expiry", "covers": ["some_expired", "none_expired", "dropped_queue_of_failed_holder"], "quick": {"max_paths": 100000, "timeout": 600}},
                 {"name": "c08_complete", "covers": ["arrival", "early"], "quick": {"max_paths": 100000, "timeout": 600}},
+                {"name": "c08_batch_dedupe", "covers": ["ran", "scheduled_some"], "quick": {"max_paths": 100000, "timeout": 600}},
                 {"name": "c08_farthest", "covers": ["kept", "dropped"], "quick": {"max_paths": 100000, "timeout": 600}},
                 {"name": "c08_progress", "covers": ["done"], "quick": {"max_paths": 100000, "timeout": 900}},
             ]},
@@ -217,6 +218,10 @@ PROPS = {
             ] + [
                 kh(f"c17_str_to_addr_decoded_len{n}", f"autonomi str_to_addr when the text decodes to {n} bytes", f"decoded length {n}", ["hex::decode -> vector of that length"])
                 for n in (0, 31, 32, 33)
+            ]},
+            {"engine": "K", "crate": "k_proto", "harnesses": [
+                kh(f"c12_decoders_never_panic_len{n}", f"record bytes: from_record / is_record_of_type_chunk / try_deserialize_record on {n}-byte records (shared with C12)", f"all contents, length {n}", K_STUBS_TRACING + ["rmp_serde::from_slice -> Err"])
+                for n in (0, 1, 2, 3, 4)
             ]},
             {"engine": "K", "crate": "k_evm", "harnesses": [
                 kh("c16_from_str_len1", "AttoTokens::from_str never panics on any 1-character ASCII string (shared with C16, which goes to length 3/4)", "length 1", quick=600),
